@@ -2,7 +2,7 @@
 from .common import standard_totality
 from ..facts import AnchorLost, path_matches
 from ..ir import IR, show, walk, strip_sites
-from ..effects import strip_not
+from ..effects import strip_not, effects, bool_edge
 from .C05 import _first_variant
 
 LEVEL = "other"
@@ -41,6 +41,7 @@ def run(ctx, rep):
     header_tables(ctx.prog, rep)
     strictness(ctx.prog, rep)
     reader_ticks(ctx.prog, rep)
+    refused_is_inert(ctx.prog, rep)
 
 
 def header_tables(prog, rep):
@@ -265,3 +266,41 @@ def reader_ticks(prog, rep):
                         rep.ob(rule, "absolute tick accepted only if greater than the previous", ok,
                                "the `previous >= t` edge cannot reach current_tick = Some(t)", b.loc(st.get("ln")))
     rep.floor(rule, n, 2, "stores to current_tick")
+
+
+def refused_is_inert(prog, rep):
+    """R2b: a snapshot that DemoWriter::write_snap refuses (tick not increasing) leaves the writer as it was: every write to
+    *self is unreachable once the pass edge of the tick comparison is cut (otherwise the refused snapshot's items stay in the
+    builder and show up in the next accepted tick)"""
+    rule = "R2b-refused-snapshot-is-inert"
+    ws = prog.one(D + "ddnet::writer::DemoWriter::write_snap")
+    ir = IR(ws)
+    gates = []
+    for bi in sorted(ws.live):
+        t = ws.blocks[bi]["term"]
+        if t["k"] != "switch":
+            continue
+        e, neg = strip_not(ir.term_operand(bi, t["o"]))
+        if e[0] == "bin" and e[1] in ("Lt", "Le", "Gt", "Ge") and "last_tick" in show(e):
+            # the edge on which the refusal is NOT taken: the successor from which Err(TooLowTickNumber) is unreachable
+            for s_ in ws.succ[bi]:
+                refuses = False
+                for b2 in ws.reachable_from(s_):
+                    for st in ws.blocks[b2]["st"]:
+                        if st["k"] == "assign" and st["r"]["k"] == "agg" and st["r"].get("variant") == "TooLowTickNumber":
+                            refuses = True
+                if not refuses:
+                    gates.append((bi, s_))
+    rep.floor(rule, len(gates), 1, "tick comparison in write_snap")
+    reach = ws.reachable_from(0, removed_edges=frozenset(gates))
+    effs = [e for e in effects(ws, ir, write_roots=[("a", 0)]) if e.kind in ("write", "mutcall")]
+    rep.floor(rule, len(effs), 3, "writes to the DemoWriter in write_snap")
+    cnt = {}
+    for ef in effs:
+        k = (ef.kind, ef.desc.split("(")[0][:60])
+        o = cnt.get(k, 0)
+        cnt[k] = o + 1
+        ok = ef.bb not in reach
+        rep.ob(rule, "%s | %s | %d" % (k[0], k[1], o), ok,
+               "`%s` happens only once the tick was accepted" % ef.desc[:80] if ok else
+               "`%s` is reachable for a tick that write_snap refuses: the refusal does not leave the writer unchanged" % ef.desc[:80], ws.loc(ef.ln))
